@@ -196,7 +196,7 @@ impl Prop for C13 {
                     }
                 }
                 // all compositions for short streams
-                let bound = if tier == Tier::Quick { 12 } else { 16 };
+                let bound = if tier == Tier::Quick { 12 } else { 19 };
                 if len <= bound {
                     for mask in 0..(1u32 << (len - 1)) {
                         cs.push(Case { frames: frames.clone(), plan: Plan::Composition(mask), via_x224: false });
@@ -263,7 +263,7 @@ impl Prop for C13 {
         ]
     }
     fn coverage_extra(&self) -> Value {
-        json!({"bounds": {"tpkt_length_fields": 65536, "fp_short": "127 lengths x 255 first bytes", "fp_long": "32768 lengths x sec-flag patterns", "composition_bound_bytes": if self.tier == Some(Tier::Quick) {12} else {16}}})
+        json!({"bounds": {"tpkt_length_fields": 65536, "fp_short": "127 lengths x 255 first bytes", "fp_long": "32768 lengths x sec-flag patterns", "composition_bound_bytes": if self.tier == Some(Tier::Quick) {12} else {19}}})
     }
     fn run_case(&mut self, idx: u64) -> Outcome {
         let c = self.cases[idx as usize].clone();
